@@ -2,7 +2,7 @@
 base class with a subclass, compound choice of classes), each with an object one level further down.  (No
 `from __future__ import annotations` here: the type hints must be real objects.)"""
 from dataclasses import dataclass, field
-from typing import List, Optional, Union
+from typing import Dict, List, Optional, Union
 
 
 @dataclass
@@ -60,3 +60,37 @@ class WildOther:
 
     head: Optional[str] = field(default=None, metadata={"type": "Element"})
     ext: List[object] = field(default_factory=list, metadata={"type": "Wildcard", "namespace": "##other"})
+
+
+@dataclass
+class AnyHolder:
+    """xs:anyType elements (fields typed object, NOT wildcards) holding plain text: a value without xsi:type binds
+    to a str whatever white space surrounds the element (C09)."""
+
+    v: Optional[object] = field(default=None, metadata={"type": "Element"})
+    w: List[object] = field(default_factory=list, metadata={"type": "Element"})
+    last: Optional[str] = field(default=None, metadata={"type": "Element"})
+
+
+@dataclass
+class WildBoth:
+    """A ##other element wildcard and a ##other attribute wildcard next to a typed element (C10 / C11: the verdict
+    for one qualified name says nothing about the same local name in another namespace)."""
+
+    class Meta:
+        namespace = "urn:wild"
+
+    head: Optional[str] = field(default=None, metadata={"type": "Element"})
+    ext: List[object] = field(default_factory=list, metadata={"type": "Wildcard", "namespace": "##other"})
+    attrs: Dict[str, str] = field(default_factory=dict, metadata={"type": "Attributes", "namespace": "##other"})
+
+
+@dataclass
+class WildTwo:
+    """Two namespace-restricted wildcards: ##targetNamespace and ##other."""
+
+    class Meta:
+        namespace = "urn:wild"
+
+    own: List[object] = field(default_factory=list, metadata={"type": "Wildcard", "namespace": "##targetNamespace"})
+    other: List[object] = field(default_factory=list, metadata={"type": "Wildcard", "namespace": "##other"})
